@@ -63,6 +63,16 @@ func (dec *Decoder) decodeComplex64(t reflect.Type, tag byte, p *complex64) {
 		} else {
 			*p = dec.stringToComplex64(dec.ReadString())
 		}
+	case TagList:
+		// the encoder writes a complex number with a non-zero imaginary
+		// part as the list [real, imaginary]
+		var pair []float32
+		dec.Decode(&pair, tag)
+		if len(pair) == 2 {
+			*p = complex(pair[0], pair[1])
+		} else if dec.Error == nil {
+			dec.Error = CastError{Source: reflect.TypeOf(pair), Destination: t}
+		}
 	default:
 		dec.defaultDecode(t, p, tag)
 	}
@@ -103,6 +113,16 @@ func (dec *Decoder) decodeComplex128(t reflect.Type, tag byte, p *complex128) {
 			*p = dec.stringToComplex128(dec.ReadUnsafeString())
 		} else {
 			*p = dec.stringToComplex128(dec.ReadString())
+		}
+	case TagList:
+		// the encoder writes a complex number with a non-zero imaginary
+		// part as the list [real, imaginary]
+		var pair []float64
+		dec.Decode(&pair, tag)
+		if len(pair) == 2 {
+			*p = complex(pair[0], pair[1])
+		} else if dec.Error == nil {
+			dec.Error = CastError{Source: reflect.TypeOf(pair), Destination: t}
 		}
 	default:
 		dec.defaultDecode(t, p, tag)
